@@ -420,10 +420,34 @@ func ParseNet(field string) ([][]byte, string) {
 		fin, field = field[i+1:], field[:i]
 	}
 	var chunks [][]byte
-	for _, h := range strings.Split(field, "~") {
-		chunks = append(chunks, vh.U(h))
+	NetQuiet = nil
+	for _, part := range strings.Split(field, "~") {
+		// "&" inside a part: the client hands the next bytes over only when the server has read everything so far
+		// (a lock-step client: no pause, no time-out - just not pipelined)
+		for j, h := range strings.Split(part, "&") {
+			chunks = append(chunks, vh.U(h))
+			if len(chunks) > 1 {
+				NetQuiet = append(NetQuiet, j > 0)
+			}
+		}
 	}
 	return chunks, fin
+}
+
+// NetQuiet[i] says that chunk i+1 of the last ParseNet follows chunk i without a pause (see ParseNet).
+var NetQuiet []bool
+
+// JoinForLines joins chunks as the session's line reader sees them: a pause makes the bytes before it a line of
+// their own, a lock-step boundary does not.
+func JoinForLines(chunks [][]byte, quiet []bool) []byte {
+	var b []byte
+	for i, c := range chunks {
+		if i > 0 && !(i-1 < len(quiet) && quiet[i-1]) {
+			b = append(b, '\n')
+		}
+		b = append(b, c...)
+	}
+	return b
 }
 
 // NetField is the inverse of ParseNet.
@@ -441,6 +465,11 @@ func NetField(chunks [][]byte, fin string) string {
 
 // SessionNet runs one session over a scripted connection (see BufConn.Finish).
 func (e *Env) SessionNet(chunks [][]byte, fin string) ([]byte, error) {
+	return e.SessionNetQ(chunks, nil, fin)
+}
+
+// SessionNetQ is SessionNet with lock-step boundaries: quiet[i] says chunk i+1 follows chunk i without a pause.
+func (e *Env) SessionNetQ(chunks [][]byte, quiet []bool, fin string) ([]byte, error) {
 	if len(chunks) == 0 {
 		chunks = [][]byte{nil}
 	}
@@ -457,7 +486,7 @@ func (e *Env) SessionNet(chunks [][]byte, fin string) ([]byte, error) {
 	}()
 	go func() {
 		client.Write(stream)
-		client.Finish(chunks[1:], fin)
+		client.FinishQ(chunks[1:], quiet, fin)
 	}()
 	type res struct {
 		out []byte
@@ -758,6 +787,7 @@ func execWith(in []string, deferAll bool) []string {
 	var plain, secure []byte
 	tlsCase := strings.Contains(in[NFields], "@")
 	var chunks [][]byte
+	var quiet []bool
 	fin := "eof"
 	if tlsCase {
 		f := strings.SplitN(in[NFields], "@", 2)
@@ -766,9 +796,10 @@ func execWith(in []string, deferAll bool) []string {
 		WriteLimit = -1
 	} else {
 		chunks, fin = ParseNet(in[NFields])
+		quiet, NetQuiet = NetQuiet, nil
 	}
 	// parser facts for every line the session can see: a pause makes the bytes before it a line of their own
-	stream := bytes.Join(chunks, []byte("\n"))
+	stream := JoinForLines(chunks, quiet)
 	TLSMode = tlsCase
 	env, err := NewEnv(c, "", config.Storage{MailboxMsgCap: 0})
 	TLSMode = false
@@ -798,7 +829,7 @@ func execWith(in []string, deferAll bool) []string {
 	if tlsCase {
 		out, err = env.SessionTLS(plain, secure)
 	} else {
-		out, err = env.SessionNet(chunks, fin)
+		out, err = env.SessionNetQ(chunks, quiet, fin)
 	}
 	status := "ok"
 	if err != nil {
